@@ -2104,4 +2104,6 @@ package xpath
 //@   props C15 C09
 //@   modifies nothing
 //@   ensures[xpath-round@C09] sameF(result, xround(f))
-//@   ensures[nearest-tie-up@C09] !isNaN(f) && !isInf(f) ==> floor(result) == result && result - f <= 0.5 && f - result < 0.5
+//@   ensures[integral@C09] !isNaN(f) && !isInf(f) ==> floor(result) == result
+//@   ensures[not-above-half@C09] !isNaN(f) && !isInf(f) ==> result - f <= 0.5
+//@   ensures[below-half@C09] !isNaN(f) && !isInf(f) ==> f - result < 0.5
